@@ -194,11 +194,17 @@ def gaps (cfgL : List Product) (r : State) : List (String × String × Int) :=
 line that caused it, and an existing mismatch neither repeats nor hides a new one). On an auction-settlement line the
 supply may fall below the recorded principal (the auction burns interest and closing fee too): only an increase counts. -/
 def monitors (cfgL : List Product) (prev : List (String × String × Int)) (r : State) (isSettle : Bool) : List String :=
-  (gaps cfgL r).filterMap fun (name, what, g) =>
+  (gaps cfgL r).flatMap fun (name, what, g) =>
     let g0 := match prev.find? (fun x => x.1 = name ∧ x.2.1 = what) with | some x => x.2.2 | none => 0
-    if g = g0 then none
-    else if isSettle ∧ name = "supply_eq_principal" ∧ g < g0 then none
-    else some s!"{name}\t{what}: gap {g0} -> {g}"
+    if g = g0 then []
+    else if isSettle ∧ name = "supply_eq_principal" ∧ g < g0 then []
+    else
+      [s!"{name}\t{what}: gap {g0} -> {g}"] ++
+      -- C03, debt ceiling: every mint is checked against the PUBLISHED minted total; when it falls behind the principal
+      -- recorded on the product's vaults, later mints can take the recorded principal above the ceiling
+      (if name = "totals_eq" ∧ what.startsWith "minted" ∧ g < g0 then
+         [s!"ceiling_backed\t{what}: the published total fell behind the recorded principal ({g0} -> {g}); the ceiling check no longer bounds it"]
+       else [])
 
 /-- per-message monitors, evaluated on the REAL states before / after an accepted message -/
 def msgMonitors (cfgL : List Product) (prev real : State) (m : Msg) (e : Env) : List String :=
